@@ -21,11 +21,12 @@ VARIABLES l,    \* next line of the trace
           ovf,  \* overflow class first observed in this session ("" = none yet)
           gr,   \* graph of the current session as dumped through the storage read API
           ixpre, \* ghost: ids of the nodes that existed when the session's index was created
-          firstlab \* ghost: <<id, label>> the label written first in the CREATE that made the node
-vars == <<l, ovf, gr, ixpre, firstlab>>
+          firstlab, \* ghost: <<id, label>> the label written first in the CREATE that made the node
+          extids \* ghost: external ids handed out so far under the scripted clock (counter + reading)
+vars == <<l, ovf, gr, ixpre, firstlab, extids>>
 
 NoGraph == [nodes |-> <<>>, rels |-> <<>>]
-Init == l = 1 /\ ovf = "" /\ gr = NoGraph /\ ixpre = {} /\ firstlab = {}
+Init == l = 1 /\ ovf = "" /\ gr = NoGraph /\ ixpre = {} /\ firstlab = {} /\ extids = {}
 
 Emit(f) == PrintT(<<"FINDING", ToJson(f)>>)
 Finding(prop, kind, detail) ==
@@ -71,7 +72,7 @@ TTruth3 ==
           IN /\ (IF Len(bad) = 0 THEN TRUE ELSE Emit(Finding("C23", "truth-table",
                     [row |-> Rows[bad[1]], law |-> Truth3Bad(Rows[bad[1]])])))
              /\ (IF (NRows = 9 /\ Cardinality(pairs) = 9) THEN TRUE ELSE Emit(Finding("C23", "truth-table-rows", NRows)))
-  /\ l' = l + 1 /\ UNCHANGED <<ovf, gr, ixpre, firstlab>>
+  /\ l' = l + 1 /\ UNCHANGED <<ovf, gr, ixpre, firstlab, extids>>
 
 (***************************************************************************)
 (* cmp: the full comparison table of a list of values.                     *)
@@ -138,7 +139,7 @@ TCmp ==
   /\ IF ~IsRows THEN Emit(Finding("C23", "query-failed", Res.err))
      ELSE IF NRows # CmpN * CmpN THEN Emit(Finding("C23", "cmp-table-rows", NRows))
      ELSE Report(CmpLaws)
-  /\ l' = l + 1 /\ UNCHANGED <<ovf, gr, ixpre, firstlab>>
+  /\ l' = l + 1 /\ UNCHANGED <<ovf, gr, ixpre, firstlab, extids>>
 
 (***************************************************************************)
 (* arith: one integer operator applied to a list of operand pairs.         *)
@@ -165,7 +166,7 @@ TArith ==
           /\ (IF over # {} THEN TRUE ELSE Emit(Finding("C23", "query-failed", Res.err)))
           /\ ovf' = IF over # {} /\ ovf = "" THEN "error" ELSE ovf
           /\ (IF over = {} \/ ovf \in {"", "error"} THEN TRUE ELSE Emit(Finding("C23", "overflow-rule-differs", [op |-> Meta.op, here |-> "error", first |-> ovf])))
-        ELSE IF NRows # n THEN Emit(Finding("C23", "arith-rows", NRows)) /\ UNCHANGED <<ovf, gr, ixpre, firstlab>>
+        ELSE IF NRows # n THEN Emit(Finding("C23", "arith-rows", NRows)) /\ UNCHANGED <<ovf, gr, ixpre, firstlab, extids>>
         ELSE
           LET nullbad == {j \in 0..(n - 1) : ArHasNull(j) /\ ~IsNull(ArRowOf(j)[2])}
               inbad   == {j \in 0..(n - 1) : ~ArHasNull(j) /\ InI64(ArExact(j))
@@ -187,7 +188,7 @@ TArith ==
              /\ (IF differ \ {"wrapped", "exact", "float-wrong"} = {} THEN TRUE ELSE Emit(Finding("C23", "overflow-rule-differs",
                               [op |-> Meta.op, here |-> SetToSeq(differ), first |-> first])))
              /\ ovf' = first
-  /\ l' = l + 1 /\ UNCHANGED <<gr, ixpre, firstlab>>
+  /\ l' = l + 1 /\ UNCHANGED <<gr, ixpre, firstlab, extids>>
 
 (***************************************************************************)
 (* order: ORDER BY over composite keys with directions, SKIP and LIMIT.    *)
@@ -228,7 +229,7 @@ TOrder ==
                    LET i == CHOOSE i \in unsorted : TRUE IN
                    Emit(Finding("C20", "not-sorted", [first |-> Rows[i], second |-> Rows[i + 1], dirs |-> OrdDirs])))
                /\ (IF unsorted # {} \/ foreign # {} \/ misplaced = {} THEN TRUE ELSE Emit(Finding("C20", "wrong-slice", [pos |-> CHOOSE p \in misplaced : TRUE, skip |-> s])))
-  /\ l' = l + 1 /\ UNCHANGED <<ovf, gr, ixpre, firstlab>>
+  /\ l' = l + 1 /\ UNCHANGED <<ovf, gr, ixpre, firstlab, extids>>
 
 (***************************************************************************)
 (* agg: grouping and aggregates.  parameter 1 = list of [key, value].      *)
@@ -303,7 +304,7 @@ TAgg ==
        IN /\ (IF (NRows = Cardinality(keys) /\ dupRows = {}) THEN TRUE ELSE Emit(Finding("C21", "one-row-per-key", [rows |-> NRows, keys |-> Cardinality(keys)])))
           /\ (IF Len(bad) = 0 THEN TRUE ELSE Emit(Finding("C21", "aggregate-" \o AggRowBad(Rows[bad[1]]),
                                   [row |-> Rows[bad[1]]])))
-  /\ l' = l + 1 /\ UNCHANGED <<ovf, gr, ixpre, firstlab>>
+  /\ l' = l + 1 /\ UNCHANGED <<ovf, gr, ixpre, firstlab, extids>>
 
 (***************************************************************************)
 (* err: one row of the input raises a runtime error; the rule says whether *)
@@ -319,7 +320,7 @@ TErr ==
   /\ IsCase("err")
   /\ (IF ~Consumes(Meta) \/ Res.out = "err" THEN TRUE ELSE Emit(Finding("C22", "error-swallowed", [op |-> Meta.op, pos |-> Meta.pos, fail |-> Meta.fail,
                                               rows |-> NRows, query |-> Rec[l].query])))
-  /\ l' = l + 1 /\ UNCHANGED <<ovf, gr, ixpre, firstlab>>
+  /\ l' = l + 1 /\ UNCHANGED <<ovf, gr, ixpre, firstlab, extids>>
 
 (***************************************************************************)
 (* part: rows(no filter) = rows(p) (+) rows(NOT p) (+) rows(p IS NULL)     *)
@@ -345,7 +346,7 @@ TPart ==
                                  THEN "row-lost" ELSE "row-duplicated",
                           [row |-> x, all |-> CountIn(all, x), t |-> CountIn(a, x), f |-> CountIn(b, x),
                            n |-> CountIn(c, x), query |-> Rec[l].query]))
-  /\ l' = l + 1 /\ UNCHANGED <<ovf, gr, ixpre, firstlab>>
+  /\ l' = l + 1 /\ UNCHANGED <<ovf, gr, ixpre, firstlab, extids>>
 
 (***************************************************************************)
 (***************************************************************************)
@@ -416,7 +417,7 @@ TRead ==
                                      refrows |-> IF Len(E) <= 6 THEN E ELSE SubSeq(E, 1, 6),
                                      gotrows |-> IF NRows <= 6 THEN Rows ELSE SubSeq(Rows, 1, 6),
                                      err |-> Res.err, query |-> Rec[l].query]))
-  /\ l' = l + 1 /\ UNCHANGED <<ovf, gr, ixpre, firstlab>>
+  /\ l' = l + 1 /\ UNCHANGED <<ovf, gr, ixpre, firstlab, extids>>
 
 (***************************************************************************)
 (* C30: a session whose database was produced by the bulk loader (or by    *)
@@ -446,7 +447,7 @@ TSession ==
   /\ l <= Len(Rec) /\ Rec[l].ev = "session"
   /\ BulkCheck
   /\ gr' = IF "graph" \in DOMAIN Rec[l] THEN Rec[l].graph ELSE NoGraph
-  /\ l' = l + 1 /\ ovf' = "" /\ ixpre' = {} /\ firstlab' = {}
+  /\ l' = l + 1 /\ ovf' = "" /\ ixpre' = {} /\ firstlab' = {} /\ extids' = {}
 (* write / admin cases: the graph the following reads are judged on is the one dumped after them *)
 TWrite ==
   /\ l <= Len(Rec) /\ Rec[l].ev = "case" /\ Rec[l].kind \in {"write", "admin"}
@@ -458,7 +459,7 @@ TWrite ==
                                       i \in {j \in 1..Len(Rec[l].graph.nodes) :
                                                \A k \in 1..Len(gr.nodes) : gr.nodes[k].id # Rec[l].graph.nodes[j].id}}
                  ELSE firstlab
-  /\ l' = l + 1 /\ UNCHANGED ovf
+  /\ l' = l + 1 /\ UNCHANGED <<ovf, extids>>
 
 (***************************************************************************)
 (* lim (C33): the same query without limits (res) and under each limit     *)
@@ -488,7 +489,7 @@ TLim ==
                           [options |-> Rec[l].resl[bads[1]].options, out |-> Rec[l].resl[bads[1]].out,
                            err |-> Rec[l].resl[bads[1]].err, limited_rows |-> Len(Rec[l].resl[bads[1]].canon),
                            full_rows |-> NRows, query |-> Rec[l].query]))
-  /\ l' = l + 1 /\ UNCHANGED <<ovf, gr, ixpre, firstlab>>
+  /\ l' = l + 1 /\ UNCHANGED <<ovf, gr, ixpre, firstlab, extids>>
 
 (***************************************************************************)
 (* upd (C12 / C13): an update statement against the reference ApplyStmt.   *)
@@ -531,7 +532,7 @@ TUpd ==
                 IF d = "" THEN TRUE
                 ELSE Emit(Finding("C13", "failed-statement-changed-the-graph", [diff |-> d, err |-> Res.err, query |-> Rec[l].query])))
   /\ gr' = Rec[l].graph
-  /\ l' = l + 1 /\ UNCHANGED <<ovf, ixpre, firstlab>>
+  /\ l' = l + 1 /\ UNCHANGED <<ovf, ixpre, firstlab, extids>>
 
 (***************************************************************************)
 (* txn (C13 / C24 / C14): an explicit transaction of the C API.  Statements *)
@@ -572,14 +573,46 @@ TTxn ==
                      outcomes |-> [i \in 1..n |-> sres[i].out], end |-> Rec[l].end,
                      script |-> [i \in 1..n |-> stmts[i].query]]))
   /\ gr' = Rec[l].graph
+  /\ l' = l + 1 /\ UNCHANGED <<ovf, ixpre, firstlab, extids>>
+
+(***************************************************************************)
+(* ext (C32): CREATE statements under a scripted clock (the behaviours of   *)
+(* ExtId.tla), then compaction and reopen.  Every statement must succeed,   *)
+(* add exactly its nodes, and every node keeps its identity.                *)
+(***************************************************************************)
+NodeTag(n) == <<PropIn(n.props, "s"), PropIn(n.props, "i")>>
+KeepsIdentities(G, H) ==   \* every node of G is in H with the same id and the same tag
+  \A i \in 1..Len(G.nodes) : \E j \in 1..Len(H.nodes) :
+     H.nodes[j].id = G.nodes[i].id /\ NodeTag(H.nodes[j]) = NodeTag(G.nodes[i])
+TExt ==
+  /\ l <= Len(Rec) /\ Rec[l].ev = "case" /\ Rec[l].kind \in {"ext", "extadmin"}
+  /\ LET obs == Rec[l].graph
+         want == Len(gr.nodes) + (IF Rec[l].kind = "ext" THEN Meta.n ELSE 0)
+         tags == {NodeTag(obs.nodes[i]) : i \in 1..Len(obs.nodes)}
+         mine == [i \in 1..Len(Meta.clock) |-> (i - 1) + Meta.clock[i]]     \* the allocation rule
+         dupByRule == (\E i \in 1..Len(mine) : mine[i] \in extids)
+                      \/ (\E i, j \in 1..Len(mine) : i # j /\ mine[i] = mine[j])
+     IN IF ~IsRows THEN
+          Emit(Finding("C32", IF Rec[l].kind = "ext" THEN "create-failed" ELSE "admin-failed",
+                       [err |-> Res.err, clock |-> Meta.clock, duplicate_by_the_allocation_rule |-> dupByRule,
+                        query |-> Rec[l].query]))
+        ELSE IF Len(obs.nodes) # want THEN
+          Emit(Finding("C32", "node-count", [got |-> Len(obs.nodes), want |-> want, query |-> Rec[l].query]))
+        ELSE IF ~KeepsIdentities(gr, obs) THEN
+          Emit(Finding("C32", "identity-changed", [query |-> Rec[l].query]))
+        ELSE IF Cardinality(tags) # Len(obs.nodes) THEN
+          Emit(Finding("C32", "two-nodes-share-one-creation", [query |-> Rec[l].query]))
+        ELSE TRUE
+  /\ gr' = IF IsRows THEN Rec[l].graph ELSE gr
+  /\ extids' = IF IsRows THEN extids \cup {(i - 1) + Meta.clock[i] : i \in 1..Len(Meta.clock)} ELSE extids
   /\ l' = l + 1 /\ UNCHANGED <<ovf, ixpre, firstlab>>
 
 TOtherCase ==
   /\ l <= Len(Rec) /\ Rec[l].ev = "case"
-  /\ Rec[l].kind \notin {"truth3", "cmp", "arith", "order", "agg", "err", "part", "read", "idx", "write", "admin", "lim", "upd", "txn", "bread"}
-  /\ l' = l + 1 /\ UNCHANGED <<ovf, gr, ixpre, firstlab>>
+  /\ Rec[l].kind \notin {"truth3", "cmp", "arith", "order", "agg", "err", "part", "read", "idx", "write", "admin", "lim", "upd", "txn", "bread", "ext", "extadmin"}
+  /\ l' = l + 1 /\ UNCHANGED <<ovf, gr, ixpre, firstlab, extids>>
 
-Next == TSession \/ TRead \/ TWrite \/ TLim \/ TUpd \/ TTxn \/ TTruth3 \/ TCmp \/ TArith \/ TOrder \/ TAgg \/ TErr \/ TPart \/ TOtherCase
+Next == TSession \/ TRead \/ TWrite \/ TLim \/ TUpd \/ TTxn \/ TExt \/ TTruth3 \/ TCmp \/ TArith \/ TOrder \/ TAgg \/ TErr \/ TPart \/ TOtherCase
 Spec == Init /\ [][Next]_vars
 
 TraceAccepted ==
